@@ -23,13 +23,14 @@ _FACETS = ["C10/" + t[0] for t in _TARGETS]
 # rapid mutation units: one process group per cost class so that the quick tier is bounded by the slowest target
 # (unit, tests, facets, checks per shard (quick, thorough), shards (quick, thorough))
 _GROUPS = [
-    ("c10-mut-chain", ["Chain"], ["C10/chain"], (10000, 40000), (2, 16)),
-    ("c10-mut-html", ["HTML"], ["C10/html"], (5000, 30000), (4, 16)),      # ~15 ms a case: Zeno runs the strict link regex (~1 MB/s) over every text body
-    ("c10-mut-script", ["Script"], ["C10/script"], (5000, 30000), (4, 16)),
-    ("c10-mut-pdf", ["PDF"], ["C10/pdf"], (5000, 15000), (4, 16)),
-    ("c10-mut-doc", ["JSON", "XML"], ["C10/json", "C10/xml"], (10000, 40000), (2, 16)),
-    ("c10-mut-list", ["S3", "M3U8", "LinkHeader"], ["C10/s3", "C10/m3u8", "C10/linkheader"], (10000, 40000), (2, 16)),
-    ("c10-mut-site", ["Reddit", "Truthsocial", "INA"], ["C10/reddit", "C10/truthsocial", "C10/ina"], (10000, 40000), (2, 16)),
+    ("c10-mut-chain", ["Chain"], ["C10/chain"], (8000, 10000), (2, 16)),
+    # HTML bodies cost ~15 ms of CPU a case (Zeno runs the strict link regex, ~1 MB/s, over every text body)
+    ("c10-mut-html", ["HTML"], ["C10/html"], (3000, 5000), (4, 16)),
+    ("c10-mut-script", ["Script"], ["C10/script"], (3000, 5000), (4, 16)),
+    ("c10-mut-pdf", ["PDF"], ["C10/pdf"], (4000, 6000), (4, 16)),
+    ("c10-mut-doc", ["JSON", "XML"], ["C10/json", "C10/xml"], (8000, 10000), (2, 16)),
+    ("c10-mut-list", ["S3", "M3U8", "LinkHeader"], ["C10/s3", "C10/m3u8", "C10/linkheader"], (8000, 8000), (2, 16)),
+    ("c10-mut-site", ["Reddit", "Truthsocial", "INA"], ["C10/reddit", "C10/truthsocial", "C10/ina"], (8000, 6000), (2, 16)),
 ]
 
 _units = [
@@ -81,7 +82,7 @@ PROP = {
              "distinct = distinct case JSON (64-bit hash) per target; classes record (content type, extractor reached, outcome ok/error)"),
     "assumptions": [
         "a response reaches the chain as an http.Response: 3-digit status, header values without CR/LF/NUL and without surrounding blanks",
-        "the watchdog (10 s per 64 KiB of input) is a wall-clock deadline: a timeout is reported only after three further timeouts with a 10x budget, otherwise the run is inconclusive (exit 2)",
+        "the watchdog is 10 s of CPU time of the thread the case runs on (inputs <= 64 KiB; x k^2 for k x 64 KiB; wall-clock backstop 60x for blocked cases), so machine load cannot fake a hang; a timeout is reported only after three further timeouts with a 10x budget, otherwise the run is inconclusive (exit 2); a case that drives the process above 2 GiB resident memory is reported as a memory blow-up",
         "item trees above the item under test are built by the harness (0-4 ancestors, optional redirect parent) and checked with CheckConsistency before use",
     ],
     "units": _units,
